@@ -1,5 +1,6 @@
-(* C08 -- proofs, part 2: run-level refinement.  On every judged scenario the low-level model L and the reference semantics M
-   produce the same failing operation, the same diagnosis and the same returned values. *)
+(* C08 -- proofs, part 2: run-level refinement on one mock.  On every judged scenario the low-level model L and the reference
+   semantics M produce the same failing operation, the same diagnosis, the same returned values, and L's output buffers begin
+   with the bytes M demands. *)
 From Coq Require Import ZArith NArith Bool List Lia.
 From CppUVerif Require Import lib.CInt lib.Str C08_Model C08_Proofs.
 Import ListNotations.
@@ -10,18 +11,22 @@ Definition proj (o : obs) : option (N * option dkind) * list (option pv) :=
 Definition lift (r : option (N * dkind) * list (option pv)) : option (N * option dkind) * list (option pv) :=
   (match fst r with Some (i, d) => Some (i, Some d) | None => None end, snd r).
 
-Definition call_op (c : scall) : op := OCall (sc_f c) (sc_ps c) (sc_want c).
-Definition last_ok (m : mock) : bool :=
-  match m_last m with None => true | Some c => match c_state c with Succeeded => true | _ => false end end.
+Definition mk_call (f : name) (its : list item) (want : bool) : scall := {| sc_f := f; sc_items := its; sc_want := want |}.
+Definition call_op (c : scall) : op := OCall (sc_f c) (sc_items c) (sc_want c).
 Definition fnames (xs : list mexp) : list name := map (fun x => sx_f (x_e x)) xs.
+Definition known (nm : list name) (f : name) : bool := existsb (fun n => n =? f) nm.
+Definition is_some {A} (o : option A) : bool := match o with Some _ => true | None => false end.
+(* per function either every expectation names an object or none does *)
+Definition unifM (xs : list mexp) : Prop :=
+  forall x y, In x xs -> In y xs -> sx_f (x_e x) = sx_f (x_e y) -> is_some (sx_obj (x_e x)) = is_some (sx_obj (x_e y)).
 
-(* simulation relation between the L state and the M state (capacities, pending diagnosis) *)
-Definition R (ign : bool) (nm : list name) (m : mock) (xs : list mexp) (order : N) (pending : option dkind) : Prop :=
-  m_ignore m = ign /\ m_aorder m = order /\
+(* simulation relation between the L state of one mock and its M state (capacities, pending diagnosis) *)
+Definition R (ign : bool) (nm : list name) (m : mock) (st : mst) : Prop :=
+  m_ignore m = ign /\ m_aorder m = s_order st /\ m_enabled m = true /\
   match finish_last m with
-  | inl m' => pending = None /\ map abs (m_exps m') = xs /\ Forall wfE (m_exps m') /\ last_ok m' = true /\ fnames xs = nm /\
-              m_ignore m' = ign /\ m_aorder m' = order
-  | inr fl => exists d, pending = Some d /\ dkind_of (f_kind fl) = Some d
+  | inl m' => s_pend st = None /\ map abs (m_exps m') = s_xs st /\ Forall wfE (m_exps m') /\ last_ok m' = true /\ fnames (s_xs st) = nm /\
+              m_ignore m' = ign /\ m_aorder m' = s_order st /\ m_enabled m' = true
+  | inr fl => exists d, s_pend st = Some d /\ dkind_of (f_kind fl) = Some d
   end.
 
 Lemma wf_no_ign es : Forall wfE es -> no_ign es.
@@ -32,14 +37,30 @@ Proof.
   destruct (cons_eq_inv _ _ _ _ H) as [H1 H2]. inversion W as [|? ? W1 W2]; subst. constructor; [|apply IH; assumption].
   destruct W1 as [A B]. destruct (stat_cnt _ _ H1) as [C D]. split; [rewrite <- (stat_ign _ _ H1); exact A|lia].
 Qed.
-Lemma relates_names f es : existsb (relates f) es = existsb (fun n => n =? f) (fnames (map abs es)).
-Proof. unfold fnames. rewrite map_map, existsb_map. reflexivity. Qed.
-Lemma consume_names f P o xs xs' v : consume f P o xs = Some (xs', v) -> fnames xs' = fnames xs.
+Lemma relates_names f es : existsb (relates f) es = known (fnames (map abs es)) f.
+Proof. unfold known, fnames. rewrite map_map, existsb_map. reflexivity. Qed.
+Lemma consume_xe f P o xs xs' v : consume f P o xs = Some (xs', v) -> map x_e xs' = map x_e xs.
 Proof.
   revert xs'. induction xs as [|x r IH]; cbn; intros xs' H; [discriminate|].
   destruct (x_open x && matches (x_e x) f P).
   - inversion H; subst. reflexivity.
-  - destruct (consume f P o r) as [[r' w]|] eqn:E; [|discriminate]. inversion H; subst. unfold fnames in *. cbn [map]. rewrite (IH r' eq_refl). reflexivity.
+  - destruct (consume f P o r) as [[r' w]|] eqn:E; [|discriminate]. inversion H; subst. cbn [map]. rewrite (IH r' eq_refl). reflexivity.
+Qed.
+Lemma consume_names f P o xs xs' v : consume f P o xs = Some (xs', v) -> fnames xs' = fnames xs.
+Proof.
+  intro H. apply consume_xe in H. unfold fnames. rewrite <- (map_map x_e sx_f), <- (map_map x_e sx_f xs), H. reflexivity.
+Qed.
+Lemma unifM_xe xs xs' : map x_e xs' = map x_e xs -> unifM xs -> unifM xs'.
+Proof.
+  intros H U x y Hx Hy. assert (G : forall z, In z xs' -> exists z0, In z0 xs /\ x_e z0 = x_e z).
+  { intros z Hz. apply (in_map x_e) in Hz. rewrite H in Hz. apply in_map_iff in Hz. destruct Hz as [z0 [A B]]. exists z0. auto. }
+  destruct (G x Hx) as [x0 [Hx0 Ex]]. destruct (G y Hy) as [y0 [Hy0 Ey]]. rewrite <- Ex, <- Ey. apply U; assumption.
+Qed.
+Lemma unifM_abs es : unifM (map abs es) -> forall f, unif f es.
+Proof.
+  intros U f e e' He He' R1 R2. specialize (U (abs e) (abs e') (in_map abs _ _ He) (in_map abs _ _ He')).
+  unfold relates in R1, R2. apply N.eqb_eq in R1. apply N.eqb_eq in R2. assert (X : sx_f (x_e (abs e)) = sx_f (x_e (abs e'))) by (cbn; congruence).
+  specialize (U X). unfold specific. exact U.
 Qed.
 Lemma fulfilled_for_abs f es :
   fulfilled_for f es = fold_right (fun x a => if sx_f (x_e x) =? f then x_done x + a else a) 0 (map abs es).
@@ -47,11 +68,19 @@ Proof. unfold fulfilled_for. induction es as [|e r IH]; cbn; [reflexivity|]. rew
 Lemma open_exists_abs f es : existsb (fun x => x_open x && (sx_f (x_e x) =? f)) (map abs es) = existsb (fun e => can_match e && relates f e) es.
 Proof. rewrite existsb_map. apply existsb_ext'. intros e _. rewrite open_abs. reflexivity. Qed.
 Lemma name_test_abs f p es :
-  existsb (fun x => (sx_f (x_e x) =? f) && existsb (fun q => fst q =? p) (sx_ps (x_e x))) (map abs es) =
+  existsb (fun x => (sx_f (x_e x) =? f) && has_name p (sx_ps (x_e x))) (map abs es) =
   existsb (fun e => relates f e && has_input_name p e) es.
 Proof. rewrite existsb_map. apply existsb_ext'. intros e _. rewrite has_input_name_pl. reflexivity. Qed.
+Lemma oname_test_abs f p es :
+  existsb (fun x => (sx_f (x_e x) =? f) && has_name p (sx_outs (x_e x))) (map abs es) =
+  existsb (fun e => relates f e && has_output_name p e) es.
+Proof. rewrite existsb_map. apply existsb_ext'. intros e _. rewrite has_output_name_ol. reflexivity. Qed.
+Lemma missing_test_abs f P es : no_ign es ->
+  existsb (fun x => x_open x && (sx_f (x_e x) =? f) && agrees_upto (x_e x) P && negb (params_covered (x_e x) P)) (map abs es) =
+  existsb (fun e => liveL f P e && negb (pcoveredL P e)) es.
+Proof. intro N. rewrite existsb_map. apply existsb_ext'. intros e He. rewrite (live_abs f P e (N e He)). reflexivity. Qed.
 
-(* when M finds a parameter after which no candidate is left, no expectation is exactly the call *)
+(* when M finds an item after which no candidate is left, no expectation is exactly the call *)
 Lemma agrees_upto_app e P Q : agrees_upto e (P ++ Q) = agrees_upto e P && agrees_upto e Q.
 Proof. unfold agrees_upto. apply forallb_app. Qed.
 Lemma first_dead_some f xs : forall rest seen p,
@@ -63,117 +92,158 @@ Proof.
   - specialize (IH _ _ H x Hx). rewrite <- app_assoc in IH. exact IH.
   - rewrite existsb_false in E. specialize (E x Hx). change (q :: r) with ([q] ++ r). rewrite app_assoc, agrees_upto_app, andb_assoc, E. reflexivity.
 Qed.
-Lemma matches_agrees e f P : matches e f P = (sx_f e =? f) && agrees_upto e P && forallb (fun q => existsb (fun x => fst x =? fst q) P) (sx_ps e).
-Proof. reflexivity. Qed.
 Lemma no_candidate_no_consume f P o xs :
   (forall x, In x xs -> x_open x && (sx_f (x_e x) =? f) && agrees_upto (x_e x) P = false) -> consume f P o xs = None.
 Proof.
-  intro H. apply consume_none. intros x Hx. specialize (H x Hx). rewrite matches_agrees.
+  intro H. apply consume_none. intros x Hx. specialize (H x Hx). unfold matches.
   destruct (x_open x); [|reflexivity]. destruct (sx_f (x_e x) =? f); [|reflexivity]. cbn in *. rewrite H. reflexivity.
 Qed.
 
-Definition known (nm : list name) (f : name) : bool := existsb (fun n => n =? f) nm.
-
-Lemma R_idle ign nm m xs order :
-  m_ignore m = ign -> m_aorder m = order -> m_last m = None -> map abs (m_exps m) = xs -> Forall wfE (m_exps m) -> fnames xs = nm ->
-  R ign nm m xs order None.
+Lemma R_idle ign nm m st :
+  m_ignore m = ign -> m_aorder m = s_order st -> m_enabled m = true -> m_last m = None -> s_pend st = None ->
+  map abs (m_exps m) = s_xs st -> Forall wfE (m_exps m) -> fnames (s_xs st) = nm -> R ign nm m st.
 Proof.
-  intros A B C D E F. unfold R, finish_last. rewrite C. repeat split; try assumption. unfold last_ok. rewrite C. reflexivity.
+  intros A B B' C P D E F. unfold R, finish_last. rewrite C. repeat split; try assumption. unfold last_ok. rewrite C. reflexivity.
+Qed.
+
+Lemma bufs_of_length its : length (bufs_of its) = length (out_names its).
+Proof.
+  induction its as [|[n v|n b|a] r IH]; [reflexivity|exact IH| |exact IH].
+  change (S (length (bufs_of r)) = S (length (out_names r))). rewrite IH. reflexivity.
 Qed.
 
 (* one actual call, L against M *)
-Lemma sim_call ign nm m xs order f ps want :
-  R ign nm m xs order None -> nodup_names (map fst ps) = true ->
-  match actual_call true m f ps want with
-  | inr fl => ign && negb (known nm f) = false /\ consume f ps (order + 1) xs = None /\
-              snd (deviation f ps xs) && negb want = false /\ dkind_of (f_kind fl) = Some (fst (deviation f ps xs))
-  | inl (m', rv) =>
-      (ign && negb (known nm f) = true /\ R ign nm m' xs order None /\ rv = (if want then Some None else None))
-      \/ (ign && negb (known nm f) = false /\
-          ((exists xs' v, consume f ps (order + 1) xs = Some (xs', v) /\ R ign nm m' xs' (order + 1) None /\ rv = (if want then Some v else None))
-           \/ (consume f ps (order + 1) xs = None /\ want = false /\ rv = None /\
-               exists d, deviation f ps xs = (d, true) /\ R ign nm m' xs (order + 1) (Some d))))
+Lemma sim_call ign nm m st f its want :
+  R ign nm m st -> fresh_list [] its = true -> unifM (s_xs st) ->
+  match actual_call true m f its want with
+  | inr fl => exists d, m_call ign (known nm) st (mk_call f its want) = inr d /\ dkind_of (f_kind fl) = Some d
+  | inl (m', r) => exists st' rv, m_call ign (known nm) st (mk_call f its want) = inl (st', rv) /\ R ign nm m' st' /\ unifM (s_xs st') /\
+                                  r_ret r = fst rv /\ outs_ok (snd rv) (r_outs r) = true /\ r_left r = None
   end.
 Proof.
-  intros [Hig [Hao HR]] Hnd. unfold actual_call. destruct (finish_last m) as [m1|fl0] eqn:FL.
-  2: { destruct HR as [d [X _]]. discriminate X. }
-  destruct HR as [_ [Habs [Hwf [Hlo [Hnm [Hig1 Hao1]]]]]].
+  intros [Hig [Hao [Hen HR]]] Hnd HU. unfold actual_call, m_call. cbn [sc_f sc_items sc_want mk_call].
+  destruct (finish_last m) as [m1|fl0] eqn:FL.
+  2: { destruct HR as [d [X Y]]. rewrite X. exists d. auto. }
+  destruct HR as [Hpe [Habs [Hwf [Hlo [Hnm [Hig1 [Hao1 Hen1]]]]]]]. rewrite Hpe.
   change (m_ignore (with_exps m1 (m_exps m1) None)) with (m_ignore m1).
+  change (m_enabled (with_exps m1 (m_exps m1) None)) with (m_enabled m1).
   change (m_exps (with_exps m1 (m_exps m1) None)) with (m_exps m1).
   change (m_aorder (with_exps m1 (m_exps m1) None)) with (m_aorder m1).
-  rewrite Hig1, relates_names, Habs, Hnm. fold (known nm f).
+  rewrite Hen1. cbn [negb]. rewrite Hig1, relates_names, Habs, Hnm.
   destruct (ign && negb (known nm f)) eqn:IG.
-  - left. split; [reflexivity|]. split; [|reflexivity]. apply R_idle; try assumption; reflexivity.
+  - eexists _, _. split; [reflexivity|]. split; [|split; [exact HU|split; [reflexivity|split; [|reflexivity]]]].
+    + apply R_idle; try assumption; reflexivity.
+    + cbn. apply nothing_outs_ok. symmetry. apply bufs_of_length.
   - rewrite Hao1.
-    set (c0 := {| c_name := f; c_order := order + 1; c_state := Succeeded; c_checked := false |}).
-    pose proof (with_name_inv f (m_exps m1) c0 (wf_no_ign _ Hwf) eq_refl eq_refl) as WN.
+    set (c0 := {| c_name := f; c_order := s_order st + 1; c_state := Succeeded; c_checked := false; c_outs := [] |}).
+    pose proof (with_name_inv f (m_exps m1) c0 (wf_no_ign _ Hwf) eq_refl eq_refl eq_refl) as WN.
     cbn [m_exps].
     destruct (with_name (create true (m_exps m1)) c0) as [[es1 c1]|fl].
     + destruct WN as [I1 [S1 [O1 [e0 [He0 Hl0]]]]].
-      pose proof (with_params_inv f ps [] es1 c1 I1 Hnd (fun x _ => eq_refl)) as WP.
+      assert (U1 : unif f es1).
+      { apply (unif_stat f (m_exps m1) es1); [symmetry; exact S1|]. apply unifM_abs. rewrite Habs. exact HU. }
+      pose proof (with_items_inv f its [] es1 c1 I1 Hnd U1) as WP.
       rewrite (map_abs_stat _ _ S1), Habs in WP.
-      assert (OP : existsb (fun x => x_open x && (sx_f (x_e x) =? f)) xs = true).
+      assert (OP : existsb (fun x => x_open x && (sx_f (x_e x) =? f)) (s_xs st) = true).
       { rewrite <- Habs, open_exists_abs. apply existsb_exists. eauto. }
-      destruct (with_params ps es1 c1) as [[es2 c2]|fl].
+      destruct (with_items its es1 c1) as [[es2 c2]|fl].
       * destruct WP as [FD [I2 [S2 O2]]]. cbn [app] in I2.
-        assert (W2 : Forall wfE es2). { apply (wf_stat (m_exps m1)); [|exact Hwf]. rewrite S2, S1. reflexivity. }
-        pose proof (finish_inv f ps es2 c2 I2 W2) as FI.
-        assert (A2 : map abs es2 = xs). { rewrite <- Habs. apply map_abs_stat. rewrite S2, S1. reflexivity. }
+        assert (SS : map stat es2 = map stat (m_exps m1)) by (rewrite S2, S1; reflexivity).
+        assert (W2 : Forall wfE es2). { exact (wf_stat (m_exps m1) es2 (eq_sym SS) Hwf). }
+        pose proof (finish_inv f its es2 c2 I2 W2) as FI.
+        assert (A2 : map abs es2 = s_xs st). { rewrite <- Habs. apply map_abs_stat. exact SS. }
         rewrite A2, O2, O1 in FI. cbn [c_order c0] in FI.
-        assert (DV : consume f ps (order + 1) xs = None -> deviation f ps xs = (DParamMissing f, true)).
-        { intros _. unfold deviation. rewrite OP. cbn [negb]. rewrite FD. reflexivity. }
+        assert (LEN : length (out_names its) = length (map snd (c_outs c2))).
+        { destruct I2 as [_ [_ [_ [X _]]]]. rewrite <- X, !map_length. reflexivity. }
+        assert (DV : consume f its (s_order st + 1) (s_xs st) = None ->
+                     deviation f its (s_xs st) = (if existsb (fun e => liveL f its e && negb (pcoveredL its e)) es2 then DParamMissing f else DObjectMissing f, true)).
+        { intros _. unfold deviation. rewrite OP. cbn [negb]. rewrite FD. rewrite <- A2, (missing_test_abs f its es2 (wf_no_ign _ W2)). reflexivity. }
         destruct want.
         -- unfold finish_last. cbn [m_last with_exps m_exps].
-           destruct (check_call es2 c2) as [[es3 c3]|fl].
-           ++ destruct FI as [v [CS [CR [ST [CK W3]]]]]. right. split; [reflexivity|]. left. exists (map abs es3), v.
-              split; [exact CS|]. split; [|cbn [m_exps with_exps]; rewrite CR; reflexivity].
-              unfold R. cbn [m_ignore m_aorder with_exps]. split; [first [exact Hig1|reflexivity]|]. split; [reflexivity|].
-              unfold finish_last. cbn [m_last with_exps m_exps]. unfold check_call. rewrite CK.
-              cbn [m_exps with_exps m_ignore m_aorder]. repeat split; try assumption.
-              ** unfold last_ok. cbn. rewrite ST. reflexivity.
-              ** rewrite (consume_names _ _ _ _ _ _ CS). exact Hnm.
-           ++ destruct FI as [CN [K _]]. split; [reflexivity|]. split; [exact CN|].
-              rewrite (DV CN). cbn. split; [reflexivity|]. rewrite K. reflexivity.
-        -- right. split; [reflexivity|].
            destruct (check_call es2 c2) as [[es3 c3]|fl] eqn:CC.
-           ++ destruct FI as [v [CS [CR [ST [CK W3]]]]]. left. exists (map abs es3), v. split; [exact CS|]. split; [|reflexivity].
-              unfold R. cbn [m_ignore m_aorder with_exps]. split; [first [exact Hig1|reflexivity]|]. split; [reflexivity|].
-              unfold finish_last. cbn [m_last with_exps m_exps]. rewrite CC.
-              cbn [m_exps with_exps m_ignore m_aorder]. repeat split; try assumption.
-              ** unfold last_ok. cbn. rewrite ST. reflexivity.
-              ** rewrite (consume_names _ _ _ _ _ _ CS). exact Hnm.
-           ++ destruct FI as [CN [K _]]. right. split; [exact CN|]. split; [reflexivity|]. split; [reflexivity|].
-              exists (DParamMissing f). split; [exact (DV CN)|].
-              unfold R. cbn [m_ignore m_aorder with_exps]. split; [first [exact Hig1|reflexivity]|]. split; [reflexivity|].
-              unfold finish_last. cbn [m_last with_exps m_exps]. rewrite CC. exists (DParamMissing f). split; [reflexivity|]. rewrite K. reflexivity.
-      * destruct WP as [p [FD K]]. split; [reflexivity|].
-        assert (CN : consume f ps (order + 1) xs = None).
-        { apply no_candidate_no_consume. apply (first_dead_some f xs ps [] p FD). }
-        split; [exact CN|].
-        assert (DV : deviation f ps xs = (if existsb (fun x => (sx_f (x_e x) =? f) && existsb (fun q => fst q =? p) (sx_ps (x_e x))) xs
-                                          then DParamValue f p else DParamName f p, false)).
-        { unfold deviation. rewrite OP. cbn [negb]. rewrite FD. reflexivity. }
-        rewrite DV. cbn [snd fst]. split; [reflexivity|]. rewrite K.
-        rewrite <- Habs, <- (map_abs_stat _ _ S1), name_test_abs.
-        destruct (existsb (fun e => relates f e && has_input_name p e) es1); reflexivity.
-    + destruct WN as [NO K]. split; [reflexivity|].
-      assert (OP : existsb (fun x => x_open x && (sx_f (x_e x) =? f)) xs = false).
+           ++ destruct FI as [e [CS [CR [OU [ST [CK W3]]]]]]. rewrite CS.
+              eexists _, _. split; [reflexivity|]. cbn [s_xs s_order s_pend fst snd r_ret r_outs r_left].
+              split; [|split; [apply (unifM_xe (s_xs st)); [apply (consume_xe _ _ _ _ _ _ CS)|exact HU]|split; [cbn [m_exps with_exps]; rewrite CR; reflexivity|split; [|reflexivity]]]].
+              ** unfold R. cbn [m_ignore m_aorder m_enabled with_exps s_order s_xs s_pend]. split; [first [exact Hig1|reflexivity]|]. split; [reflexivity|]. split; [first [exact Hen1|reflexivity]|].
+                 unfold finish_last. cbn [m_last with_exps m_exps]. unfold check_call. rewrite CK.
+                 cbn [m_exps with_exps m_ignore m_aorder m_enabled]. repeat split; try assumption.
+                 --- unfold last_ok. cbn. rewrite ST. reflexivity.
+                 --- rewrite (consume_names _ _ _ _ _ _ CS). exact Hnm.
+              ** unfold last_outs. cbn [m_last with_exps]. exact OU.
+           ++ destruct FI as [CN [K _]]. rewrite CN, (DV CN). cbn [andb negb].
+              eexists. split; [reflexivity|]. rewrite K. destruct (existsb _ es2); reflexivity.
+        -- destruct (check_call es2 c2) as [[es3 c3]|fl] eqn:CC.
+           ++ destruct FI as [e [CS [CR [OU [ST [CK W3]]]]]]. rewrite CS.
+              eexists _, _. split; [reflexivity|]. cbn [s_xs s_order s_pend fst snd r_ret r_outs r_left].
+              split; [|split; [apply (unifM_xe (s_xs st)); [apply (consume_xe _ _ _ _ _ _ CS)|exact HU]|split; [reflexivity|split; [|reflexivity]]]].
+              ** unfold R. cbn [m_ignore m_aorder m_enabled with_exps s_order s_xs s_pend]. split; [first [exact Hig1|reflexivity]|]. split; [reflexivity|]. split; [first [exact Hen1|reflexivity]|].
+                 unfold finish_last. cbn [m_last with_exps m_exps]. rewrite CC.
+                 cbn [m_exps with_exps m_ignore m_aorder m_enabled]. repeat split; try assumption.
+                 --- unfold last_ok. cbn. rewrite ST. reflexivity.
+                 --- rewrite (consume_names _ _ _ _ _ _ CS). exact Hnm.
+              ** unfold last_outs. cbn [m_last with_exps].
+                 assert (CO : c_outs c3 = c_outs c2).
+                 { unfold check_call in CC. destruct (c_checked c2); [inversion CC; reflexivity|].
+                   destruct (c_state (set_checked c2)); [| inversion CC; reflexivity | inversion CC; reflexivity].
+                   destruct (existsb _ es2); [discriminate|]. destruct (take_first _ _ es2); [inversion CC; reflexivity|].
+                   destruct (existsb _ es2); discriminate. }
+                 rewrite <- CO. exact OU.
+           ++ destruct FI as [CN [K _]]. rewrite CN, (DV CN). cbn [andb negb].
+              eexists _, _. split; [reflexivity|]. cbn [s_xs s_order s_pend fst snd r_ret r_outs r_left].
+              split; [|split; [exact HU|split; [reflexivity|split; [|reflexivity]]]].
+              ** unfold R. cbn [m_ignore m_aorder m_enabled with_exps s_order s_xs s_pend]. split; [first [exact Hig1|reflexivity]|]. split; [reflexivity|]. split; [first [exact Hen1|reflexivity]|].
+                 unfold finish_last. cbn [m_last with_exps m_exps]. rewrite CC. eexists. split; [reflexivity|]. rewrite K.
+                 destruct (existsb _ es2); reflexivity.
+              ** unfold last_outs. cbn [m_last with_exps]. apply nothing_outs_ok. exact LEN.
+      * destruct WP as [p [FD K]].
+        assert (CN : consume f its (s_order st + 1) (s_xs st) = None).
+        { apply no_candidate_no_consume. apply (first_dead_some f (s_xs st) its [] p FD). }
+        rewrite CN. unfold deviation. rewrite OP. cbn [negb]. rewrite FD.
+        destruct p as [n v|n buf|a]; cbn [andb]; eexists; (split; [reflexivity|]); rewrite K; cbn [fail_kind].
+        -- rewrite <- Habs, <- (map_abs_stat _ _ S1), name_test_abs.
+           destruct (existsb (fun e => relates f e && has_input_name n e) es1); reflexivity.
+        -- rewrite <- Habs, <- (map_abs_stat _ _ S1), oname_test_abs.
+           destruct (existsb (fun e => relates f e && has_output_name n e) es1); reflexivity.
+        -- reflexivity.
+    + destruct WN as [NO K].
+      assert (OP : existsb (fun x => x_open x && (sx_f (x_e x) =? f)) (s_xs st) = false).
       { rewrite <- Habs, open_exists_abs. apply existsb_false. exact NO. }
-      assert (CN : consume f ps (order + 1) xs = None).
-      { apply consume_none. intros x Hx. rewrite existsb_false in OP. specialize (OP x Hx). rewrite matches_agrees.
+      assert (CN : consume f its (s_order st + 1) (s_xs st) = None).
+      { apply consume_none. intros x Hx. rewrite existsb_false in OP. specialize (OP x Hx). unfold matches.
         destruct (x_open x); [|reflexivity]. cbn in *. rewrite OP. reflexivity. }
-      split; [exact CN|].
-      assert (DV : deviation f ps xs = (let n := fold_right (fun x a => if sx_f (x_e x) =? f then x_done x + a else a) 0 xs in
-                                        if 0 <? n then DAdditional f (n + 1) else DUnexpected f, false)).
-      { unfold deviation. rewrite OP. reflexivity. }
-      rewrite DV. cbn [snd fst]. split; [reflexivity|]. rewrite K.
+      rewrite CN. unfold deviation. rewrite OP. cbn [negb andb]. eexists. split; [reflexivity|]. rewrite K.
       rewrite fulfilled_for_abs, Habs. cbn zeta.
-      destruct (0 <? fold_right (fun x a => if sx_f (x_e x) =? f then x_done x + a else a) 0 xs); reflexivity.
+      destruct (0 <? fold_right (fun x a => if sx_f (x_e x) =? f then x_done x + a else a) 0 (s_xs st)); reflexivity.
 Qed.
 
-Lemma unfulfilled_abs es : Forall wfE es -> existsb (fun e => negb (is_fulfilled e)) es = existsb x_open (map abs es).
+(* ------------------------------------------------------------------ accumulated results *)
+Definition pre2 : list (list N) -> list (list N) -> Prop := Forall2 (fun w g => is_prefix w g = true).
+Lemma outs_ok_pre2 w g : outs_ok w g = true <-> pre2 w g.
 Proof.
-  intro W. rewrite existsb_map. apply existsb_ext'. intros e He. rewrite Forall_forall in W. destruct (W e He) as [_ L].
+  unfold outs_ok, pre2. revert g. induction w as [|a r IH]; destruct g as [|b s]; cbn; split; intro H; try discriminate; try constructor;
+    try (inversion H; fail).
+  - apply andb_true_iff in H. apply H.
+  - apply IH. apply andb_true_iff in H. apply H.
+  - inversion H; subst. apply andb_true_iff. split; [assumption|]. apply IH. assumption.
+Qed.
+Lemma pre2_rev w g : pre2 w g -> pre2 (rev w) (rev g).
+Proof. unfold pre2. induction 1; cbn; [constructor|]. apply Forall2_app; [assumption|]. constructor; [assumption|constructor]. Qed.
+Definition acc_rel (a : acc) (ma : macc) : Prop := a_rets a = ma_rets ma /\ pre2 (ma_outs ma) (a_outs a).
+Lemma acc_rel_add a ma r rv : acc_rel a ma -> r_ret r = fst rv -> outs_ok (snd rv) (r_outs r) = true -> acc_rel (add_effect a r) (macc_add ma rv).
+Proof.
+  intros [A B] C D. split; cbn.
+  - rewrite C, A. reflexivity.
+  - apply Forall2_app; [|exact B]. apply pre2_rev. apply outs_ok_pre2. exact D.
+Qed.
+Lemma acc_rel_obs a ma fl fm :
+  acc_rel a ma -> o_rets (mk_obs fl a) = mr_rets (mk_mres fm ma) /\ outs_ok (mr_outs (mk_mres fm ma)) (o_outs (mk_obs fl a)) = true.
+Proof. intros [A B]. cbn. rewrite A. split; [reflexivity|]. apply outs_ok_pre2. apply pre2_rev. exact B. Qed.
+Lemma left_add a r : r_left r = None -> a_left (add_effect a r) = a_left a.
+Proof. intro H. cbn. rewrite H. reflexivity. Qed.
+
+Lemma unfulfilled_abs es : Forall wfE es -> unfulfilled es = existsb x_open (map abs es).
+Proof.
+  intro W. unfold unfulfilled. rewrite existsb_map. apply existsb_ext'. intros e He. rewrite Forall_forall in W. destruct (W e He) as [_ L].
   rewrite open_abs. unfold is_fulfilled, can_match. destruct (e_act e =? e_exp e) eqn:E; cbn.
   - apply N.eqb_eq in E. symmetry. apply N.ltb_ge. lia.
   - apply N.eqb_neq in E. symmetry. apply N.ltb_lt. lia.
@@ -181,58 +251,100 @@ Qed.
 Lemma ooo_abs es : existsb e_ooo es = existsb x_ooo (map abs es).
 Proof. rewrite existsb_map. reflexivity. Qed.
 
-Lemma sim_calls ign nm : forall cs m xs order i pending rets,
-  R ign nm m xs order pending -> forallb (fun c => nodup_names (map fst (sc_ps c))) cs = true ->
-  proj (run_from true m i (map call_op cs ++ [OCheck]) rets) = lift (m_calls ign (known nm) xs order i pending cs rets).
+Definition call_fresh (c : scall) : bool := fresh_list [] (sc_items c).
+
+(* the calls of a judged scenario followed by the final check, L against M *)
+Lemma sim_calls ign nm : forall cs m st i a ma,
+  R ign nm m st -> unifM (s_xs st) -> forallb call_fresh cs = true -> acc_rel a ma ->
+  let o := run_from true m i (map call_op cs ++ [OCheck]) a in
+  let r := m_calls ign (known nm) st i cs ma in
+  proj o = lift (mr_fail r, mr_rets r) /\ outs_ok (mr_outs r) (o_outs o) = true.
 Proof.
-  induction cs as [|c r IH]; intros m xs order i pending rets HR Hnd.
-  - cbn [map app run_from step]. unfold check_expectations. destruct HR as [Hig [Hao HR]].
+  induction cs as [|c r IH]; intros m st i a ma HR HU Hnd HA; cbn zeta.
+  - cbn [map app run_from step m_calls]. unfold check_expectations. destruct HR as [Hig [Hao [Hen HR]]].
+    unfold m_final. cbn [flat_map map].
     destruct (finish_last m) as [m1|fl].
-    + destruct HR as [Hp [Habs [Hwf [Hlo [Hnm _]]]]]. subst pending. unfold last_ok in Hlo. rewrite Hlo. cbn [andb m_calls].
-      rewrite (unfulfilled_abs _ Hwf), Habs. destruct (existsb x_open xs); [reflexivity|].
-      rewrite ooo_abs, Habs. destruct (existsb x_ooo xs); reflexivity.
-    + destruct HR as [d [Hp Hd]]. subst pending. cbn. unfold proj, lift. cbn. rewrite Hd. reflexivity.
+    + destruct HR as [Hp [Habs [Hwf [Hlo _]]]]. rewrite Hp. cbn [app]. rewrite Hlo. cbn [andb existsb]. rewrite !orb_false_r.
+      rewrite (unfulfilled_abs _ Hwf), Habs. destruct (existsb x_open (s_xs st)).
+      * destruct (acc_rel_obs a ma (Some (i, history (m_exps m1) FNotFulfilled)) (Some (i, DNotFulfilled)) HA) as [X Y].
+        split; [|exact Y]. unfold proj, lift. rewrite X. reflexivity.
+      * rewrite ooo_abs, Habs. destruct (existsb x_ooo (s_xs st)).
+        -- destruct (acc_rel_obs a ma (Some (i, history (filter e_ooo (m_exps m1)) FOutOfOrder)) (Some (i, DOutOfOrder)) HA) as [X Y].
+           split; [|exact Y]. unfold proj, lift. rewrite X. reflexivity.
+        -- cbn [run_from]. destruct (acc_rel_obs (add_effect a no_effect) ma None None) as [X Y].
+           { destruct HA as [A B]. split; [exact A|exact B]. }
+           split; [|exact Y]. unfold proj, lift. rewrite X. reflexivity.
+    + destruct HR as [d [Hp Hd]]. rewrite Hp. cbn [app].
+      destruct (acc_rel_obs a ma (Some (i, fl)) (Some (i, d)) HA) as [X Y]. split; [|exact Y].
+      unfold proj, lift. rewrite X. cbn. rewrite Hd. reflexivity.
   - cbn in Hnd. apply andb_true_iff in Hnd. destruct Hnd as [Hn1 Hn2].
-    destruct c as [[f ps] want]. cbn [map app run_from step call_op sc_f sc_ps sc_want fst snd]. cbn [sc_ps fst snd] in Hn1.
-    destruct pending as [d|].
-    + destruct HR as [Hig [Hao HR]]. unfold actual_call. destruct (finish_last m) as [m1|fl].
-      * destruct HR as [X _]. discriminate X.
-      * destruct HR as [d' [Hp Hd]]. inversion Hp; subst d'. cbn. unfold proj, lift. cbn. rewrite Hd. reflexivity.
-    + pose proof (sim_call ign nm m xs order f ps want HR Hn1) as SC. cbn [m_calls sc_f sc_ps sc_want fst snd].
-      destruct (actual_call true m f ps want) as [[m' rv]|fl].
-      * destruct SC as [[IG [HR' Hrv]]|[IG [[xs' [v [CS [HR' Hrv]]]]|[CN [Hw [Hrv [d [DV HR']]]]]]]]; rewrite IG.
-        -- rewrite (IH m' xs order (i + 1) None _ HR' Hn2). subst rv. destruct want; reflexivity.
-        -- rewrite CS. rewrite (IH m' xs' (order + 1) (i + 1) None _ HR' Hn2). subst rv. destruct want; reflexivity.
-        -- rewrite CN, DV. subst want rv. cbn [andb negb]. apply (IH m' xs (order + 1) (i + 1) (Some d) _ HR' Hn2).
-      * destruct SC as [IG [CN [DF K]]]. rewrite IG, CN. destruct (deviation f ps xs) as [d df]. cbn [fst snd] in *. rewrite DF.
-        unfold proj, lift. cbn. rewrite K. reflexivity.
+    destruct c as [f its want]. cbn [map app run_from step call_op sc_f sc_items sc_want m_calls]. unfold call_fresh in Hn1. cbn [sc_items] in Hn1.
+    pose proof (sim_call ign nm m st f its want HR Hn1 HU) as SC. unfold mk_call in SC.
+    destruct (actual_call true m f its want) as [[m' rv]|fl].
+    + destruct SC as [st' [mrv [MC [HR' [HU' [Hr [Ho Hl]]]]]]]. rewrite MC.
+      apply (IH m' st' (i + 1) (add_effect a rv) (macc_add ma mrv) HR' HU' Hn2). apply acc_rel_add; assumption.
+    + destruct SC as [d [MC Hd]]. rewrite MC.
+      destruct (acc_rel_obs a ma (Some (i, fl)) (Some (i, d)) HA) as [X Y]. split; [|exact Y].
+      unfold proj, lift. rewrite X. cbn. rewrite Hd. reflexivity.
+Qed.
+
+(* a call that passes no name twice and at most one object passes fresh items only *)
+Lemma fresh_list_ok : forall its P,
+  nodup_names (in_names its) = true -> nodup_names (out_names its) = true -> (length (objs_of P ++ objs_of its) <=? 1)%nat = true ->
+  (forall n, In n (in_names its) -> passed_in P n = false) -> (forall n, In n (out_names its) -> passed_out P n = false) ->
+  fresh_list P its = true.
+Proof.
+  induction its as [|it r IH]; intros P Hi Ho Hb Fi Fo; [reflexivity|]. cbn [fresh_list]. apply andb_true_iff.
+  destruct it as [n v|n buf|a].
+  - cbn in Hi. apply andb_true_iff in Hi. destruct Hi as [Hi1 Hi2]. split.
+    + cbn. rewrite (Fi n (or_introl eq_refl)). reflexivity.
+    + apply IH; try assumption.
+      * rewrite objs_of_app. cbn. rewrite app_nil_r. exact Hb.
+      * intros m Hm. rewrite passed_in_app, (Fi m (or_intror Hm)). unfold passed_in. cbn. rewrite orb_false_r.
+        apply negb_true_iff in Hi1. rewrite existsb_false in Hi1. rewrite N.eqb_sym. apply Hi1. exact Hm.
+      * intros m Hm. rewrite passed_out_app, (Fo m Hm). reflexivity.
+  - cbn in Ho. apply andb_true_iff in Ho. destruct Ho as [Ho1 Ho2]. split.
+    + cbn. rewrite (Fo n (or_introl eq_refl)). reflexivity.
+    + apply IH; try assumption.
+      * rewrite objs_of_app. cbn. rewrite app_nil_r. exact Hb.
+      * intros m Hm. rewrite passed_in_app, (Fi m Hm). reflexivity.
+      * intros m Hm. rewrite passed_out_app, (Fo m (or_intror Hm)). unfold passed_out. cbn. rewrite orb_false_r.
+        apply negb_true_iff in Ho1. rewrite existsb_false in Ho1. rewrite N.eqb_sym. apply Ho1. exact Hm.
+  - split.
+    + cbn. unfold passed_obj. destruct (objs_of P); [reflexivity|]. cbn in Hb. rewrite app_length in Hb. cbn in Hb.
+      apply Nat.leb_le in Hb. lia.
+    + apply IH; try assumption.
+      * rewrite objs_of_app, <- app_assoc. exact Hb.
+      * intros m Hm. rewrite passed_in_app, (Fi m Hm). reflexivity.
+      * intros m Hm. rewrite passed_out_app, (Fo m Hm). reflexivity.
+Qed.
+Lemma call_ok_fresh c : call_ok c = true -> call_fresh c = true.
+Proof.
+  unfold call_ok, call_fresh. intro H. apply andb_true_iff in H. destruct H as [H H3]. apply andb_true_iff in H. destruct H as [H1 H2].
+  apply fresh_list_ok; try assumption; reflexivity.
 Qed.
 
 (* ------------------------------------------------------------------ the prefix of a judged scenario *)
-Definition exp_op (e : sexp) : op := OExpect (sx_n e) (sx_f e) (sx_ps e) (sx_ret e) false.
+Definition exp_op (e : sexp) : op := OExpect (sx_n e) (sx_f e) (sx_ps e) (sx_outs e) (sx_obj e) (sx_ret e) false.
 Definition canon_ops (k : canon) : list op :=
   (if k_strict k then [OStrict] else []) ++ (if k_ignore k then [OIgnoreOtherCalls] else []) ++
   map exp_op (k_exps k) ++ map call_op (k_calls k) ++ [OCheck].
 
 Lemma parse_calls_inv : forall ops cs, parse_calls ops = Some cs -> ops = map call_op cs ++ [OCheck].
 Proof.
-  induction ops as [|o r IH]; intros cs H; [discriminate|]. destruct o; cbn in H.
-  - discriminate.
+  induction ops as [|o r IH]; intros cs H; [discriminate|]. destruct o; cbn in H; try discriminate.
   - destruct (parse_calls r) as [l|] eqn:E; [|discriminate]. inversion H; subst. cbn. rewrite (IH l eq_refl). reflexivity.
   - destruct r; [|discriminate]. inversion H; subst. reflexivity.
-  - discriminate.
-  - discriminate.
-  - discriminate.
 Qed.
 Lemma parse_exps_inv : forall ops es cs, parse_exps ops = Some (es, cs) -> ops = map exp_op es ++ map call_op cs ++ [OCheck].
 Proof.
   induction ops as [|o r IH]; intros es cs H; [discriminate|].
-  destruct o as [n f ps ret ign| | | | |];
+  destruct o as [n f ps outs obj ret ign| | | | | | | |];
     try (match type of H with parse_exps (?o :: r) = _ =>
            change (match parse_calls (o :: r) with Some cs0 => Some ([], cs0) | None => None end = Some (es, cs)) in H end;
          destruct (parse_calls _) as [l|] eqn:E in H; [|discriminate]; inversion H; subst; cbn [map app]; apply (parse_calls_inv _ _ E)).
   destruct ign.
-  - change (match parse_calls (OExpect n f ps ret true :: r) with Some cs0 => Some ([], cs0) | None => None end = Some (es, cs)) in H.
+  - change (match parse_calls (OExpect n f ps outs obj ret true :: r) with Some cs0 => Some ([], cs0) | None => None end = Some (es, cs)) in H.
     cbn in H. discriminate.
   - cbn in H. destruct (parse_exps r) as [[es' cs']|] eqn:E; [|discriminate]. inversion H; subst. cbn. rewrite (IH es' cs eq_refl). reflexivity.
 Qed.
@@ -267,67 +379,105 @@ Proof.
   destruct (parse2_inv _ _ _ H) as [A B]. rewrite A. cbn [app]. rewrite <- B. reflexivity.
 Qed.
 
-Definition expect_s (m : mock) (e : sexp) : mock := expect m (sx_n e) (sx_f e) (sx_ps e) (sx_ret e) false.
-Lemma run_expects : forall es m i rest rets,
-  run_from true m i (map exp_op es ++ rest) rets = run_from true (fold_left expect_s es m) (i + N.of_nat (length es)) rest rets.
+Definition expect_s (m : mock) (e : sexp) : mock := expect m (sx_n e) (sx_f e) (sx_ps e) (sx_outs e) (sx_obj e) (sx_ret e) false.
+Lemma run_expects : forall es m i rest a,
+  run_from true m i (map exp_op es ++ rest) a = run_from true (fold_left expect_s es m) (i + N.of_nat (length es)) rest a.
 Proof.
-  induction es as [|e r IH]; intros m i rest rets.
+  induction es as [|e r IH]; intros m i rest a.
   - cbn. rewrite N.add_0_r. reflexivity.
-  - cbn [map app run_from step exp_op]. rewrite IH. cbn [fold_left length]. f_equal. lia.
+  - cbn [map app run_from step exp_op]. rewrite IH. cbn [fold_left length]. f_equal; [lia|]. destruct a; reflexivity.
 Qed.
 Lemma pl_mk ps : map (fun p => (p_name p, p_val p)) (map (fun q : name * pv => {| p_name := fst q; p_val := snd q; p_flag := false |}) ps) = ps.
 Proof. rewrite map_map. cbn. induction ps as [|[a b] r IH]; cbn; [reflexivity|]. rewrite IH. reflexivity. Qed.
+Lemma ol_mk os : map (fun p => (q_name p, q_bytes p)) (map (fun q : name * list N => {| q_name := fst q; q_bytes := snd q; q_flag := false |}) os) = os.
+Proof. rewrite map_map. cbn. induction os as [|[a b] r IH]; cbn; [reflexivity|]. rewrite IH. reflexivity. Qed.
+Lemma abs_mk e lo hi : abs (mk_exp (sx_n e) (sx_f e) (sx_ps e) (sx_outs e) (sx_obj e) (sx_ret e) false lo hi) =
+  {| x_e := e; x_left := sx_n e; x_done := 0; x_lo := lo; x_hi := hi; x_ooo := false |}.
+Proof.
+  unfold abs, sx_of, mk_exp, pl, ol. cbn. rewrite pl_mk, ol_mk, N.sub_0_r. destruct e; reflexivity.
+Qed.
 Lemma expects_state : forall es m from,
-  (m_strict m = true -> from = m_eorder m) -> Forall wfE (m_exps m) ->
+  m_enabled m = true -> (m_strict m = true -> from = m_eorder m) -> Forall wfE (m_exps m) ->
   let m' := fold_left expect_s es m in
   map abs (m_exps m') = map abs (m_exps m) ++ init_m (m_strict m) from es /\ Forall wfE (m_exps m') /\
-  m_last m' = m_last m /\ m_ignore m' = m_ignore m /\ m_aorder m' = m_aorder m.
+  m_last m' = m_last m /\ m_ignore m' = m_ignore m /\ m_aorder m' = m_aorder m /\ m_enabled m' = true /\ m_strict m' = m_strict m /\
+  (m_strict m = true -> m_eorder m' = fold_left (fun a e => a + sx_n e) es from).
 Proof.
-  induction es as [|e r IH]; intros m from Hf Hw; cbn zeta.
-  - cbn. rewrite app_nil_r. auto.
+  induction es as [|e r IH]; intros m from Hen Hf Hw; cbn zeta.
+  - cbn. rewrite app_nil_r. repeat split; auto. intro H. symmetry. apply Hf. exact H.
   - cbn [fold_left]. specialize (IH (expect_s m e) (from + sx_n e)).
-    assert (S1 : m_strict (expect_s m e) = m_strict m) by reflexivity.
-    destruct IH as [A [B [C [D E]]]].
-    + rewrite S1. intro Hs. cbn. rewrite Hs. rewrite (Hf Hs). reflexivity.
-    + cbn. apply Forall_app. split; [exact Hw|]. constructor; [|constructor]. split; [reflexivity|]. cbn. lia.
-    + rewrite A. split; [|auto]. rewrite S1. cbn [expect_s expect m_exps]. rewrite map_app, <- app_assoc. f_equal. cbn [map app init_m]. f_equal.
-      unfold abs. cbn. unfold pl. cbn. rewrite pl_mk. rewrite N.sub_0_r.
-      destruct e as [[[n f] ps] ret]. cbn. destruct (m_strict m) eqn:Hs; [rewrite (Hf eq_refl)|]; reflexivity.
+    assert (EX : expect_s m e = {| m_exps := m_exps m ++ [mk_exp (sx_n e) (sx_f e) (sx_ps e) (sx_outs e) (sx_obj e) (sx_ret e) false
+                                     (if m_strict m then m_eorder m + 1 else 0) (if m_strict m then m_eorder m + sx_n e else 0)];
+                                   m_aorder := m_aorder m; m_eorder := if m_strict m then m_eorder m + sx_n e else m_eorder m;
+                                   m_strict := m_strict m; m_ignore := m_ignore m; m_enabled := m_enabled m; m_last := m_last m |}).
+    { unfold expect_s, expect. rewrite Hen. reflexivity. }
+    assert (S1 : m_strict (expect_s m e) = m_strict m) by (rewrite EX; reflexivity).
+    destruct IH as [A [B [C [D [E [F [G H]]]]]]].
+    + rewrite EX. exact Hen.
+    + rewrite S1. intro Hs. rewrite EX. cbn. rewrite Hs. rewrite (Hf Hs). reflexivity.
+    + rewrite EX. cbn. apply Forall_app. split; [exact Hw|]. constructor; [|constructor]. split; [reflexivity|]. cbn. lia.
+    + rewrite A. split.
+      * rewrite S1. rewrite EX. cbn [m_exps]. rewrite map_app, <- app_assoc. f_equal. cbn [map app init_m]. f_equal.
+        rewrite abs_mk. destruct (m_strict m) eqn:Hs; [rewrite (Hf eq_refl)|]; reflexivity.
+      * split; [exact B|]. split; [rewrite C, EX; reflexivity|]. split; [rewrite D, EX; reflexivity|]. split; [rewrite E, EX; reflexivity|].
+        split; [exact F|]. split; [rewrite G; exact S1|]. intro Hs. rewrite S1 in H. apply (H Hs).
 Qed.
 Lemma fnames_init st from es : fnames (init_m st from es) = map sx_f es.
 Proof. revert from. induction es as [|e r IH]; intro from; cbn; [reflexivity|]. unfold fnames in *. rewrite IH. reflexivity. Qed.
+Lemma xe_init st from es : map x_e (init_m st from es) = es.
+Proof. revert from. induction es as [|e r IH]; intro from; cbn; [reflexivity|]. rewrite IH. reflexivity. Qed.
 
-Lemma m_calls_ext ign k1 k2 : (forall f, k1 f = k2 f) -> forall cs xs order i pending rets,
-  m_calls ign k1 xs order i pending cs rets = m_calls ign k2 xs order i pending cs rets.
+Lemma m_calls_ext ign k1 k2 : (forall f, k1 f = k2 f) -> forall cs st i a,
+  m_calls ign k1 st i cs a = m_calls ign k2 st i cs a.
 Proof.
-  intro H. induction cs as [|c r IH]; intros xs order i pending rets; destruct pending; cbn; try reflexivity.
-  rewrite H. destruct (ign && negb (k2 (sc_f c))); [apply IH|]. destruct (consume _ _ _ _) as [[xs' v]|]; [apply IH|].
+  intro H. induction cs as [|c r IH]; intros st i a; cbn; [reflexivity|].
+  unfold m_call. rewrite H. destruct (s_pend st); [reflexivity|]. destruct (ign && negb (k2 (sc_f c))); [apply IH|].
+  destruct (consume _ _ _ _) as [[xs' v]|]; [apply IH|].
   destruct (deviation _ _ _) as [d df]. destruct (df && negb (sc_want c)); [apply IH|reflexivity].
 Qed.
 
-(* L refines M on every judged scenario: same failing operation, same diagnosis, same returned values *)
-Theorem L_refines_M ops k :
-  parse ops = Some k -> judged k = true -> proj (run ops) = lift (expected k).
+(* obj_uniform of the scenario: per function every expectation names an object or none does *)
+Lemma obj_uniform_unifM st from es cs : obj_uniform es cs = true -> unifM (init_m st from es).
 Proof.
-  intros Hp Hj. rewrite (parse_inv _ _ Hp). unfold run, run_gen, canon_ops, expected.
-  set (m1 := if k_strict k then {| m_exps := []; m_aorder := 0; m_eorder := 0; m_strict := true; m_ignore := false; m_last := None |} else mock0).
-  set (m2 := if k_ignore k then {| m_exps := m_exps m1; m_aorder := m_aorder m1; m_eorder := m_eorder m1; m_strict := m_strict m1;
-                                    m_ignore := true; m_last := m_last m1 |} else m1).
+  intros H x y Hx Hy Hf.
+  assert (G : forall z, In z (init_m st from es) -> In (x_e z) es).
+  { intros z Hz. apply (in_map x_e) in Hz. rewrite xe_init in Hz. exact Hz. }
+  pose proof (G x Hx) as Ex. pose proof (G y Hy) as Ey. unfold obj_uniform in H. rewrite forallb_forall in H.
+  destruct (sx_obj (x_e x)) eqn:Ox; destruct (sx_obj (x_e y)) eqn:Oy; try reflexivity; exfalso.
+  - specialize (H (x_e x) Ex). rewrite Ox in H. rewrite forallb_forall in H. specialize (H (x_e y) Ey).
+    rewrite Oy, <- Hf, N.eqb_refl in H. discriminate H.
+  - specialize (H (x_e y) Ey). rewrite Oy in H. rewrite forallb_forall in H. specialize (H (x_e x) Ex).
+    rewrite Ox, Hf, N.eqb_refl in H. discriminate H.
+Qed.
+
+(* L refines M on every judged scenario: same failing operation, same diagnosis, same returned values, output buffers begin
+   with the bytes of the consumed expectation *)
+Theorem L_refines_M ops k :
+  parse ops = Some k -> judged k = true ->
+  proj (run ops) = lift (expected k) /\ outs_ok (expected_outs k) (o_outs (run ops)) = true.
+Proof.
+  intros Hp Hj. rewrite (parse_inv _ _ Hp). unfold run, run_gen, canon_ops, expected, expected_outs, expected_res.
+  set (m1 := if k_strict k then set_strict mock0 else mock0).
+  set (m2 := if k_ignore k then set_ignore m1 else m1).
   set (i0 := (if k_strict k then 1 else 0) + (if k_ignore k then 1 else 0)).
-  assert (E1 : forall rest, run_from true mock0 0 ((if k_strict k then [OStrict] else []) ++ (if k_ignore k then [OIgnoreOtherCalls] else []) ++ rest) []
-                            = run_from true m2 i0 rest []).
+  assert (E1 : forall rest, run_from true mock0 0 ((if k_strict k then [OStrict] else []) ++ (if k_ignore k then [OIgnoreOtherCalls] else []) ++ rest) acc0
+                            = run_from true m2 i0 rest acc0).
   { intro rest. unfold m2, m1, i0. destruct (k_strict k), (k_ignore k); reflexivity. }
   rewrite E1, run_expects.
-  assert (M2 : m_exps m2 = [] /\ m_strict m2 = k_strict k /\ m_ignore m2 = k_ignore k /\ m_aorder m2 = 0 /\ m_eorder m2 = 0 /\ m_last m2 = None).
+  assert (M2 : m_exps m2 = [] /\ m_strict m2 = k_strict k /\ m_ignore m2 = k_ignore k /\ m_aorder m2 = 0 /\ m_eorder m2 = 0 /\ m_last m2 = None /\ m_enabled m2 = true).
   { unfold m2, m1. destruct (k_strict k), (k_ignore k); cbn; auto 10. }
-  destruct M2 as [X1 [X2 [X3 [X4 [X5 X6]]]]].
-  destruct (expects_state (k_exps k) m2 0) as [A [B [C [D E]]]].
+  destruct M2 as [X1 [X2 [X3 [X4 [X5 [X6 X7]]]]]].
+  destruct (expects_state (k_exps k) m2 0 X7) as [A [B [C [D [E [F _]]]]]].
   { intros _. symmetry. exact X5. }
   { rewrite X1. constructor. }
   rewrite X1, X2 in A. cbn [map app] in A.
   rewrite (m_calls_ext (k_ignore k) _ (known (map sx_f (k_exps k)))).
-  2: { intro f. unfold known. rewrite existsb_map. reflexivity. }
+  2: { intro f. unfold known, knows. rewrite existsb_map. reflexivity. }
   replace ((if k_strict k then 1 else 0) + (if k_ignore k then 1 else 0) + N.of_nat (length (k_exps k))) with (i0 + N.of_nat (length (k_exps k))) by reflexivity.
-  apply sim_calls; [|exact Hj].
-  apply R_idle; try congruence. rewrite fnames_init. reflexivity.
+  unfold judged in Hj. apply andb_true_iff in Hj. destruct Hj as [Hj1 Hj2].
+  apply (sim_calls (k_ignore k) (map sx_f (k_exps k)) (k_calls k) _ (mst0 (k_strict k) (k_exps k))).
+  - apply R_idle; cbn [mst0 s_order s_pend s_xs]; try congruence. apply fnames_init.
+  - apply (obj_uniform_unifM _ _ _ _ Hj2).
+  - apply forallb_forall. intros c Hc. apply call_ok_fresh. rewrite forallb_forall in Hj1. apply Hj1. exact Hc.
+  - split; [reflexivity|constructor].
 Qed.
